@@ -101,6 +101,7 @@ func (ex *Exec) spawnCoop(i *interpreter, fn value, args []value, pos token.Pos)
 	co := ex.co
 	g := &gor{id: len(co.gs), wake: make(chan struct{})}
 	co.gs = append(co.gs, g)
+	ex.progress()
 	go func() {
 		<-g.wake
 		if co.dead {
